@@ -253,7 +253,7 @@ def check_format_input_anchor(inp):
     if isinstance(inp, numbers.Number) and inp == 0:
         return np.array((0.0, 0.0, 0.0))
 
-    return check_format_input_vector(
+    inp = check_format_input_vector(
         inp,
         dims=(1, 2),
         shape_m1=3,
@@ -261,6 +261,12 @@ def check_format_input_anchor(inp):
         sig_type="`None` or `0` or array_like (list, tuple, ndarray) with shape (3,)",
         allow_None=True,
     )
+    if inp is not None and inp.size == 0:
+        raise MagpylibBadUserInput(
+            "Input parameter `anchor` must be `None` or `0` or array_like (list, tuple, ndarray) "
+            f"with shape (3,) or (n,3).\nInstead received empty array_like with shape {inp.shape}."
+        )
+    return inp
 
 
 def check_format_input_axis(inp):
@@ -308,7 +314,13 @@ def check_format_input_angle(inp):
         - return as ndarray
     """
     if isinstance(inp, numbers.Number):
-        return float(inp)
+        try:
+            return float(inp)
+        except (TypeError, OverflowError) as err:  # complex numbers, integers beyond the float range
+            raise MagpylibBadUserInput(
+                "Input parameter `angle` must be int, float or array_like (list, tuple, ndarray) "
+                f"with shape (n,).\nInstead received {inp!r}."
+            ) from err
 
     return check_format_input_vector(
         inp,
